@@ -1120,7 +1120,7 @@ func main() {
 		return
 	}
 	nColl, nHist, nConc := 600, 330, 120
-	nSet, setDocs, nPipe, pipeDocs, pipeRounds := 3, 60000, 3, 30000, 4
+	nSet, setDocs, nPipe, pipeDocs, pipeRounds := 4, 60000, 4, 30000, 5
 	if *tier == "thorough" {
 		nColl, nHist, nConc = 12000, 6000, 2000
 		nSet, nPipe, pipeRounds = 12, 10, 6
